@@ -467,3 +467,97 @@ def check_dead_computations(prog, rep, rels, rule='VALUE-dead'):
                               (key_text(st)[:70], nm), st.lineno)
     rep.instance(rule, {'functions_analysed': n, 'modules': list(rels)})
     return n
+
+
+def undefined_self_attrs(ct, ci):
+    """[(method name, node)] reads `self.X` in the class body of ci where X is never bound in the
+    class, its bases or its subclasses (attribute store on self / cls / a local object of the
+    class, class-level name, method, property, setattr with a literal name). Classes (or
+    relatives) that create attributes dynamically (__getattr__, __dict__, setattr with computed
+    names, unresolved bases) are skipped: returns None for them."""
+    from .core import is_self_attr
+
+    def info(k):
+        names = set()
+        dynamic = False
+        src_nodes = list(ast.walk(k.node))
+        for st in k.node.body:
+            if isinstance(st, ast.Assign):
+                for t in st.targets:
+                    names.update(n.id for n in ast.walk(t) if isinstance(n, ast.Name))
+            elif isinstance(st, ast.AnnAssign) and isinstance(st.target, ast.Name):
+                names.add(st.target.id)
+            elif isinstance(st, (ast.FunctionDef, ast.AsyncFunctionDef, ast.ClassDef)):
+                names.add(st.name)
+                if st.name in ('__getattr__', '__getattribute__'):
+                    dynamic = True
+        for n in src_nodes:
+            if isinstance(n, ast.Attribute) and isinstance(n.ctx, (ast.Store, ast.Del)) and \
+                    isinstance(n.value, ast.Name):
+                names.add(n.attr)          # stores on self, cls and on locals (obj, res, cp, ..)
+            elif isinstance(n, ast.Attribute) and n.attr == '__dict__':
+                dynamic = True
+            elif isinstance(n, ast.Call) and isinstance(n.func, ast.Name) and \
+                    n.func.id == 'setattr' and len(n.args) >= 2:
+                if isinstance(n.args[1], ast.Constant):
+                    names.add(n.args[1].value)
+                else:
+                    dynamic = True
+        if '__slots__' in names:
+            dynamic = True
+        return names, dynamic
+    fam = set()
+    rel = []
+    for k in ct.cone(ci):
+        for kk in k.mro:
+            if kk not in rel:
+                rel.append(kk)
+    for k in rel:
+        nm, dyn = info(k)
+        if dyn:
+            return None
+        fam |= nm
+        known = [b for b in k.base_names if b not in ('object', 'ABC', 'Generic')]
+        if len(k.bases) < len(known):
+            return None                     # a base class outside the analysed package
+    out = []
+    for st in ci.node.body:
+        if not isinstance(st, (ast.FunctionDef, ast.AsyncFunctionDef)):
+            continue
+        guarded = set()
+        for n in ast.walk(st):
+            if isinstance(n, ast.Call) and isinstance(n.func, ast.Name) and n.func.id in (
+                    'hasattr', 'getattr') and len(n.args) >= 2 and isinstance(
+                        n.args[1], ast.Constant):
+                guarded.add(n.args[1].value)
+        for n in ast.walk(st):
+            if is_self_attr(n) and isinstance(n.ctx, ast.Load) and n.attr not in fam and \
+                    n.attr not in guarded and not n.attr.startswith('__'):
+                out.append((st.name, n))
+    return out
+
+
+def check_undefined_attrs(prog, rep, rels, rule='ATTR-defined'):
+    """Every `self.X` read in the classes of the given modules names an attribute that some method
+    of the class family binds: a read of a name nobody binds is an AttributeError waiting on the
+    path that reaches it (typically a renamed option holder)."""
+    ct = prog.classtable()
+    n = 0
+    for ci in ct.all:
+        if ci.module.relpath not in rels:
+            continue
+        res = undefined_self_attrs(ct, ci)
+        if res is None:
+            continue
+        n += 1
+        seen = set()
+        for meth, node in res:
+            if (meth, node.attr) in seen:
+                continue
+            seen.add((meth, node.attr))
+            rep.violation(rule, ci.module, '%s.%s' % (ci.name, meth), 'undefined:' + node.attr,
+                          '`self.%s` is read, but no method of %s, its bases or subclasses ever '
+                          'binds an attribute of that name: AttributeError on the path that '
+                          'reaches this line' % (node.attr, ci.name), node.lineno)
+    rep.instance(rule, {'classes_analysed': n, 'modules': sorted(rels)})
+    return n
